@@ -153,6 +153,11 @@ def search_ucert(ctx, term, out_keys, name, depth=4):
 
 
 def run(ctx):
+    run_main(ctx)
+    known_probe(ctx)
+
+
+def run_main(ctx):
     from adcgen import Expr, simplify_unitary
     rng = ctx.rng
     law = orth_law(ORBS)
@@ -260,6 +265,24 @@ def run(ctx):
         else:
             ctx.skip("validator_inconclusive")
             ctx.notes.append(f"inconclusive: {rep['e1'][:200]} || {rep['e2'][:200]} || {rep['lean']}")
+
+
+def known_probe(ctx):
+    """deterministic probe of the recorded finding (printed as KNOWN-FINDING while it is listed)"""
+    from adcgen import Expr, simplify_unitary
+    from adcgen.indices import get_symbols
+    from adcgen.sympy_objects import NonSymmetricTensor
+    p, q, r = get_symbols("pqr")
+    e = Expr(-NonSymmetricTensor("U", (p, q)) * NonSymmetricTensor("U", (p, r)), target_idx=[])
+    try:
+        out = simplify_unitary(e.copy(), "U", evaluate_deltas=True)
+    except Exception as ex:
+        ctx.notes.append(f"known-finding probe raised {ex!r}")
+        return
+    ctx.count("known_finding_probe")
+    if out.sympy.is_number:
+        ctx.violation(f"simplify_unitary(-U_pq U_pr, p,q,r summed, evaluate_deltas=True) = {out} (a number: the sum over the "
+                      "generated delta_qr is lost)", {"kind": "known-probe", "input": str(e), "output": str(out)}, key=KNOWN_EVAL)
 
 
 def finish_args(ctx):
